@@ -1,6 +1,7 @@
 package props
 
 import (
+	"fmt"
 	"go/ast"
 	"go/token"
 	"go/types"
@@ -176,6 +177,61 @@ func init() {
 	})
 }
 
+// checkJSONRootValidated (ERR7): the value returned by fastjson's Parse/ParseBytes is the row; its
+// kind must be established through Object() (an error for anything else) or Type() before any
+// field access — Get on a non-object silently yields nil, i.e. an all-NULL record.
+func checkJSONRootValidated(c *core.Ctx, fn *core.FuncRef) {
+	p := c.Prog
+	info := fn.Info()
+	ast.Inspect(fn.Decl.Body, func(n ast.Node) bool {
+		as, ok := n.(*ast.AssignStmt)
+		if !ok || len(as.Rhs) != 1 || len(as.Lhs) < 1 {
+			return true
+		}
+		call, ok := core.Unparen(as.Rhs[0]).(*ast.CallExpr)
+		if !ok {
+			return true
+		}
+		f, ok := core.Callee(info, call).(*types.Func)
+		if !ok || f.Pkg() == nil || f.Pkg().Path() != "github.com/valyala/fastjson" || (f.Name() != "ParseBytes" && f.Name() != "Parse") {
+			return true
+		}
+		id, ok := as.Lhs[0].(*ast.Ident)
+		if !ok {
+			return true
+		}
+		root := info.Defs[id]
+		if root == nil {
+			root = info.Uses[id]
+		}
+		if root == nil {
+			return true
+		}
+		key := p.FName(fn) + ":" + id.Name + " := " + f.Name()
+		bad, uses := "", 0
+		ast.Inspect(fn.Decl.Body, func(m ast.Node) bool {
+			sel, ok := m.(*ast.SelectorExpr)
+			if !ok {
+				return true
+			}
+			rid, ok := sel.X.(*ast.Ident)
+			if !ok || info.Uses[rid] != root {
+				return true
+			}
+			uses++
+			if sel.Sel.Name != "Object" && sel.Sel.Name != "Type" {
+				bad = "the parsed row is used through ." + sel.Sel.Name + " without establishing that it is a JSON object (Object()/Type()): a row such as [1,2] or \"text\" becomes an all-NULL record instead of an error"
+			}
+			return true
+		})
+		if uses == 0 {
+			return true
+		}
+		c.Decide(bad == "", "ERR7", key, as.Pos(), uses, "row kind established through Object()/Type()", bad)
+		return true
+	})
+}
+
 func runC06(c *core.Ctx) {
 	p := c.Prog
 	c.Rule("ERR1", "error result of a call is not discarded or dead")
@@ -185,6 +241,8 @@ func runC06(c *core.Ctx) {
 	c.Rule("ERR6", "error field of a received carrier struct is examined first")
 	// hand-confirmed floors (2026-09-21): 25 Node.Run call sites, 30 Evaluate call sites
 	nRun, nEval, nProduce := 0, 0, 0
+	nCarrierRecv := 0
+	c.Rule("ERR7", "a parsed JSON row is validated to be an object before its fields are read")
 	for _, fn := range p.AllFuncs() {
 		rel := core.Rel(fn.Pkg)
 		if !onQueryPath(rel) {
@@ -264,6 +322,14 @@ func runC06(c *core.Ctx) {
 		for _, cr := range errflow.Carriers(p, fn) {
 			c.Decide(cr.OK, "ERR6", p.FName(fn)+":"+cr.Var+" "+cr.Type+"."+cr.Field, cr.Def.Pos(), 1, cr.Why, cr.Why)
 		}
+		ds, nrecv := errflow.DiscardedCarriers(p, fn)
+		nCarrierRecv += nrecv
+		for _, d := range ds {
+			c.Bad("ERR6", p.FName(fn)+":"+d.What, d.Pos, 1, "messages of type "+d.Type+" can carry an error from the producer goroutine; "+d.What+" throws them away unread, so a failure of that input ends the query successfully")
+		}
+		if rel == "datasources/json" {
+			checkJSONRootValidated(c, fn)
+		}
 	}
 	// floors as counted on the pinned tree; a refactoring that merges call sites lowers them legitimately,
 	// so the floors are set well below today's counts and only guard against a vacuous run.
@@ -275,4 +341,8 @@ func runC06(c *core.Ctx) {
 	c.Floor("ERR4", 200, "`if err != nil` blocks on the query path")
 	c.Floor("ERR5", 3, "scan loops: json impl, json execution, lines execution")
 	c.Floor("ERR6", 3, "chanMessage in both joins, jobOutRecord in json")
+	if nCarrierRecv < 6 {
+		c.Unknown("ERR6", "<carrier receives>", 0, fmt.Sprintf("only %d receives of error-carrying messages found (joins: 3 each, json: 1)", nCarrierRecv))
+	}
+	c.Floor("ERR7", 1, "json parser worker")
 }
